@@ -62,7 +62,7 @@ def gen_small(rng, prop, job):
 def make_jobs(prop, tier, seed):
     jobs = plug.std_jobs(prop, tier, seed, "m4", n_quick=16, per_quick=8, schedules=6)
     if tier == "thorough":
-        for j in range(24):
+        for j in range(16):
             jobs.append({"kind": "pbound", "prop": prop, "seed": seed * 104729 + j, "k": 2, "budget": 1500})
     else:
         jobs.append({"kind": "pbound", "prop": prop, "seed": seed * 104729, "k": 1, "budget": 150})
